@@ -364,10 +364,10 @@ def recording(draw, max_n=400, kinds=None, min_n=0):
 def zc_cases(draw):
     width, rate, s, kind = draw(recording())
     target = [draw(st.integers(0, 400)), draw(st.sampled_from([0, 0, 0, 0.25, -0.4, 0.5]))]
-    step = draw(st.sampled_from([2, 3, 4, 16, 2.5, 3.3, 7.75, 88.2, 1.5, 1, 0.5]))
+    step = draw(st.sampled_from([2.5, 3, 3.5, 2, 4, 16, 4.5, 3.3, 7.75, 88.2, 2.3, 1.5, 1, 0.5]))
     return {"width": width, "rate": rate, "samples": s, "kind": kind, "target": target, "step_samples": step,
             "outside": draw(st.sampled_from([None, None, None, None, "before", "after"])),
-            "backend": draw(st.sampled_from(["wav", "wav", "query"]))}
+            "backend": draw(st.sampled_from(["wav", "query"]))}
 
 
 @st.composite
@@ -408,7 +408,7 @@ def splice_cases(draw):
 
 
 CHECKS = [
-    Check("zero_crossing", run_zero_crossing, strategy=lambda tier: zc_cases(), quick_n=1500, thorough_n=25000),
+    Check("zero_crossing", run_zero_crossing, strategy=lambda tier: zc_cases(), quick_n=4000, thorough_n=40000),
     Check("search_edit_search", run_search_edit_search, strategy=lambda tier: ses_cases(), quick_n=300, thorough_n=5000),
     Check("tg_boundaries", run_tg_boundaries, strategy=lambda tier: tgb_cases(), quick_n=300, thorough_n=5000),
     Check("splice", run_splice, strategy=lambda tier: splice_cases(), quick_n=500, thorough_n=8000),
